@@ -536,6 +536,16 @@ func keySet(r *rand.Rand, nk int) []string {
 
 func genC16(g *Gen) {
 	r := g.R
+	// keys sharing a prefix of 65,536 bytes and more (first-difference bits beyond 2^19)
+	for c := 0; c < g.N(1, 6); c++ {
+		plen := []int{65536, 65537, 131072, 70000, 65535, 65536 + 8}[c%6]
+		prefix := make([]byte, plen)
+		for i := range prefix {
+			prefix[i] = "ab"[(i/5)%2]
+		}
+		p := string(prefix)
+		g.Case("fdb", J{"keys": strsJ([]string{p, p + "a", p + "a\x00", p + "b"})})
+	}
 	for c := 0; c < g.N(1200, 50000); c++ {
 		keys := keySet(r, 2+r.Intn(15))
 		if r.Intn(5) == 0 { // FirstDiffBits does not need sorted keys
@@ -646,6 +656,56 @@ func genC17(g *Gen) {
 			// the empty key first
 		}
 		g.Case("shard", J{"keys": strsJ(keys), "maxSize": []int{1, 2, 3, 100, 255, 256, 257, 300}[(c/3+c)%8]})
+	}
+	// a 257-way fan-out (prefix key + all 256 next bytes) at depth 1 or 2, behind siblings that recurse deeper,
+	// with some of its children larger than maxSize themselves
+	for c := 0; c < g.N(8, 200); c++ {
+		var keys []string
+		top := string(bsString(r, r.Intn(2))) // common prefix of everything
+		nsib := 1 + r.Intn(3)
+		for sib := 0; sib < nsib; sib++ { // earlier siblings: small subtrees that recurse a level or two further
+			p := top + string([]byte{byte(10 + sib)})
+			keys = append(keys, p, p+"a", p+"aa", p+"aab", p+"ab", p+"b")
+			if r.Intn(2) == 0 {
+				keys = append(keys, p+"ba", p+"bab", p+"babb")
+			}
+		}
+		fan := top + string([]byte{byte(10 + nsib)})
+		if c%2 == 1 {
+			fan += "q" // one level deeper
+			keys = append(keys, top+string([]byte{byte(10 + nsib)})+"a")
+		}
+		keys = append(keys, fan)
+		for b := 0; b < 256; b++ {
+			k := fan + string([]byte{byte(b)})
+			keys = append(keys, k)
+			if r.Intn(12) == 0 || b == 5 { // a child larger than maxSize
+				keys = append(keys, k+"x", k+"xy", k+"y", k+"z")
+			}
+		}
+		keys = append(keys, top+"\xfe\xfe")
+		set := map[string]bool{}
+		var uniq []string
+		for _, k := range keys {
+			if !set[k] {
+				set[k] = true
+				uniq = append(uniq, k)
+			}
+		}
+		sort.Strings(uniq)
+		g.Case("shard", J{"keys": strsJ(uniq), "maxSize": []int{1, 2, 3, 4}[r.Intn(4)]})
+	}
+	// keys sharing a prefix of 65,536 bytes and more (16-bit prefix lengths wrap there)
+	for c := 0; c < g.N(2, 12); c++ {
+		plen := []int{65536, 65537, 65535, 70000, 131072, 65536 + 255}[c%6]
+		prefix := make([]byte, plen)
+		for i := range prefix {
+			prefix[i] = "ab"[(i/7)%2]
+		}
+		p := string(prefix)
+		keys := []string{p[:10], p[:10] + "z", p, p + "a", p + "ab", p + "b", p + "ba", "c"}
+		sort.Strings(keys)
+		g.Case("shard", J{"keys": strsJ(keys), "maxSize": 1 + c%3})
 	}
 	// many keys over a 3-letter alphabet: deep recursion
 	for c := 0; c < g.N(6, 120); c++ {
